@@ -12,6 +12,14 @@
      access goes through the heap of reference counts and is a Fault on a dead cell.
    heap                : list of shared_ptr use-counts, cell i holds object id i+1;
      count 0 = the object has been destroyed.
+   shared_ptr instances: the instrumented build (harness/soh_extra.hpp) makes every copy of a
+     heap-resident shared_ptr instance a read window on the source and every destruction of a
+     non-empty one a write window (two visible operations each).  The only such instances are
+     the values of objectMap; imap gives the instance number of each node.  The windows of a
+     method are played, inside the critical section, by the pc Win; the use-count effect of the
+     whole method body is applied in the step that computes the body's result (the owner's
+     count is off by the copies / destructions still to be played until its last window closes;
+     no other thread can tell, and the safety invariant counts references, not instants).
    unfixed = true selects the order of the original header in removeObject(predicate):
      erase the objectMap node, then read its key for the typeMap lookup. *)
 From Coq Require Import List Arith ZArith Bool.
@@ -224,20 +232,27 @@ Definition apply_op (throws : list Z) (o : op) (arg : ptr) (s : mstate) : mstate
   end.
 
 (* ---------- the concurrent model ---------- *)
+(* a window on the shared_ptr instance of a map node: copy from it (read) or its destruction (write) *)
+Inductive wk := WRd | WWr.
+Definition wact := (wk * nat)%type.
 Inductive pc :=
 | Idle
 | SLock (o : sop)                (* before lock_guard's lock() *)
 | PLock (o : pop)
 | Call (o : pop) (k : Z)         (* inside the section, parked in user_call, iterator at key k *)
 | Unlock (o : op) (a : ptr) (r : Z)   (* body done (argument a), before lock_guard's unlock(); returns r *)
+| Win (o : op) (a : ptr) (r : Z) (half : bool) (todo : list wact)
+                                 (* body done; windows on node pointers still to play (half: the first one is open) *)
 | XUnlock (o : pop).             (* unwinding after a throwing predicate: unlock, then the exception leaves *)
 
 (* held: the shared_ptr argument on its way in (Add) or the result on its way out (Find) *)
 Record loc := Loc { prog : list op; at_ : pc; slots : option ptr * option ptr; held : option ptr }.
 Record entry := Entry { e_tid : nat; e_op : op; e_arg : ptr; e_ret : option Z }.
 (* log: ghost linearization log, appended at the unlock step *)
+(* imap: instance number of the node of each name; ninst: next fresh instance number *)
 Record glob := Glob { omap : omapT; tmap : tmapT; mtx : option nat; heap : list nat;
-                      calls : Z; throws : list Z; faulted : bool; log : list entry }.
+                      calls : Z; throws : list Z; faulted : bool; log : list entry;
+                      imap : list (Z * nat); ninst : nat }.
 
 Definition O_MTX := 1.
 Definition F_ITER := 1.   (* use of an iterator whose map node has been erased *)
@@ -289,7 +304,37 @@ Definition sop_rc (o : sop) (arg : ptr) (r : Z) (touched : option ptr) (h : list
 Definition new_arg (o : sop) : option Z := match o with Add _ v => Some v | AddT _ v _ => Some v | _ => None end.
 Definition is_rem (o : pop) : bool := match o with RemPred _ => true | _ => false end.
 Definition set_hf (g : glob) (h : list nat) (ok : bool) : glob :=
-  Glob (omap g) (tmap g) (mtx g) h (calls g) (throws g) (faulted g || negb ok) (log g).
+  Glob (omap g) (tmap g) (mtx g) h (calls g) (throws g) (faulted g || negb ok) (log g) (imap g) (ninst g).
+
+(* ---------- windows on the node pointers ---------- *)
+Definition inst_of (k : Z) (im : list (Z * nat)) : nat := match lookup k im with Some i => i | None => O end.
+Definition iobj (i : nat) : Z := Z.of_nat i + 2.      (* event object number of an instance; 1 is the mutex *)
+(* the windows a simple method body opens, in order, and the new instance table.
+   om, im: the maps before the body; r: its result; fresh: the number of the node it may create.
+   (emplace moves the argument into the new node: silent.  A rejected emplace constructs nothing.) *)
+Definition sop_wins (o : sop) (r : Z) (om : omapT) (im : list (Z * nat)) (fresh : nat) : list wact * list (Z * nat) :=
+  match o with
+  | Add n _ => ([], if r =? 1 then put n fresh im else im)
+  | AddT n _ _ => ([], if r =? 1 then put n fresh im else im)
+  | RemName n => if r =? 1 then ([(WWr, inst_of n im)], del n im) else ([], im)        (* erase destroys the node's pointer *)
+  | Copy a b =>
+    match lookup a om with
+    | Some _ => ([(WRd, inst_of a im)], if r =? 1 then put b fresh im else im)          (* newObjectPtr = fnd->second *)
+    | None => ([], im)
+    end
+  | FindName n _ => match lookup n om with Some _ => ([(WRd, inst_of n im)], im) | None => ([], im) end  (* return fnd->second *)
+  | GetObjects => (map (fun kp => (WRd, inst_of (fst kp) im)) om, im)                  (* push_back(obj.second) *)
+  | _ => ([], im)
+  end.
+Definition after_body (o : op) (a : ptr) (r : Z) (todo : list wact) : pc :=
+  match todo with [] => Unlock o a r | _ => Win o a r false todo end.
+Definition win_ev (edge : bool) (w : wact) : ev :=
+  match fst w, edge with
+  | WRd, false => E K_RD_BEGIN (iobj (snd w)) 0
+  | WRd, true => E K_RD_END (iobj (snd w)) 0
+  | WWr, false => E K_WR_BEGIN (iobj (snd w)) 0
+  | WWr, true => E K_WR_END (iobj (snd w)) 0
+  end.
 
 Definition tstep_gen (unfixed : bool) (t c : nat) (g : glob) (l : loc) : option (glob * loc * list ev) :=
   match at_ l with
@@ -320,22 +365,23 @@ Definition tstep_gen (unfixed : bool) (t c : nat) (g : glob) (l : loc) : option 
       | OP po => Some (g, Loc rest (PLock po) (slots l) (held l), [iv])
       end
     end
-  | SLock o =>      (* lock, and the whole body: it contains no visible operation *)
+  | SLock o =>      (* lock, and the body up to its first window (or to the unlock) *)
     match mtx g with
     | Some _ => None
     | None =>
       let arg := harg l in
       let '(om, tm, r, touched) := apply_sop o arg (omap g) (tmap g) in
       let '(h', ok, keep) := sop_rc o arg r touched (heap g) in
-      Some (Glob om tm (Some t) h' (calls g) (throws g) (faulted g || negb ok) (log g),
-            Loc (prog l) (Unlock (OS o) arg r) (slots l) keep,
+      let '(todo, im) := sop_wins o r (omap g) (imap g) (ninst g) in
+      Some (Glob om tm (Some t) h' (calls g) (throws g) (faulted g || negb ok) (log g) im (S (ninst g)),
+            Loc (prog l) (after_body (OS o) arg r todo) (slots l) keep,
             [E K_LOCK O_MTX 0] ++ fault_evs F_UAF ok)
     end
   | PLock o =>      (* lock; begin(); the first predicate call parks in user_call *)
     match mtx g with
     | Some _ => None
     | None =>
-      Some (Glob (omap g) (tmap g) (Some t) (heap g) (calls g) (throws g) (faulted g) (log g),
+      Some (Glob (omap g) (tmap g) (Some t) (heap g) (calls g) (throws g) (faulted g) (log g) (imap g) (ninst g),
             Loc (prog l) (match first_key (omap g) with Some k => Call o k | None => Unlock (OP o) null_ptr 0 end)
                 (slots l) (held l),
             [E K_LOCK O_MTX 0])
@@ -343,13 +389,13 @@ Definition tstep_gen (unfixed : bool) (t c : nat) (g : glob) (l : loc) : option 
   | Call o k =>
     match lookup k (omap g) with
     | None =>       (* the iterator's node is gone *)
-      Some (Glob (omap g) (tmap g) (mtx g) (heap g) (calls g) (throws g) true (log g),
+      Some (Glob (omap g) (tmap g) (mtx g) (heap g) (calls g) (throws g) true (log g) (imap g) (ninst g),
             Loc (prog l) (Unlock (OP o) null_ptr 0) (slots l) (held l), [E K_FAULT 0 F_ITER])
     | Some p =>
       let cev := E K_CALL 0 (Z.of_nat (pid p)) in
       let n := calls g in
       if memZ n (throws g) then
-        Some (Glob (omap g) (tmap g) (mtx g) (heap g) (n + 1) (throws g) (faulted g) (log g),
+        Some (Glob (omap g) (tmap g) (mtx g) (heap g) (n + 1) (throws g) (faulted g) (log g) (imap g) (ninst g),
               Loc (prog l) (XUnlock o) (slots l) (held l), [cev; E K_THROW 0 n])
       else
         let live := alive (heap g) p in         (* the predicate reads the object *)
@@ -361,34 +407,44 @@ Definition tstep_gen (unfixed : bool) (t c : nat) (g : glob) (l : loc) : option 
             let om_at_deref := if unfixed then del k (omap g) else omap g in
             let iter_ok := match lookup k om_at_deref with Some _ => true | None => false end in
             Some (Glob (del k (omap g)) (del k (tmap g)) (mtx g) h' (n + 1) (throws g)
-                       (faulted g || negb (live && ok && iter_ok)) (log g),
-                  Loc (prog l) (Unlock (OP o) null_ptr 1) (slots l) (held l),
+                       (faulted g || negb (live && ok && iter_ok)) (log g) (del k (imap g)) (ninst g),
+                  Loc (prog l) (Win (OP o) null_ptr 1 false [(WWr, inst_of k (imap g))]) (slots l) (held l),
                   [cev] ++ fault_evs F_UAF (live && ok) ++ fault_evs F_ITER iter_ok)
           else
             let '(h', ok) := rc_inc (heap g) (pid p) in
-            Some (Glob (omap g) (tmap g) (mtx g) h' (n + 1) (throws g) (faulted g || negb (live && ok)) (log g),
-                  Loc (prog l) (Unlock (OP o) null_ptr (Z.of_nat (pid p))) (slots l) (Some p),
+            Some (Glob (omap g) (tmap g) (mtx g) h' (n + 1) (throws g) (faulted g || negb (live && ok)) (log g)
+                       (imap g) (ninst g),
+                  Loc (prog l) (Win (OP o) null_ptr (Z.of_nat (pid p)) false [(WRd, inst_of k (imap g))]) (slots l) (Some p),
                   [cev] ++ fault_evs F_UAF (live && ok))
         else
-          Some (Glob (omap g) (tmap g) (mtx g) (heap g) (n + 1) (throws g) (faulted g || negb live) (log g),
+          Some (Glob (omap g) (tmap g) (mtx g) (heap g) (n + 1) (throws g) (faulted g || negb live) (log g)
+                     (imap g) (ninst g),
                 Loc (prog l) (match next_key k (omap g) with Some k' => Call o k' | None => Unlock (OP o) null_ptr 0 end)
                     (slots l) (held l),
                 [cev] ++ fault_evs F_UAF live)
+    end
+  | Win o a r half todo =>    (* one edge of the first pending window *)
+    match todo with
+    | [] => Some (g, Loc (prog l) (Unlock o a r) (slots l) (held l), [])      (* not reachable: after_body *)
+    | w :: rest =>
+      if half then Some (g, Loc (prog l) (after_body o a r rest) (slots l) (held l), [win_ev true w])
+      else Some (g, Loc (prog l) (Win o a r true todo) (slots l) (held l), [win_ev false w])
     end
   | Unlock o a r =>   (* unlock; the result is handed to the client (a Find result goes into its slot) *)
     let e := Entry t o a (Some r) in
     match dst_slot o with
     | Some s =>
       let '(h', ok) := dec_opt (heap g) (slot l s) in
-      Some (Glob (omap g) (tmap g) None h' (calls g) (throws g) (faulted g || negb ok) (log g ++ [e]),
+      Some (Glob (omap g) (tmap g) None h' (calls g) (throws g) (faulted g || negb ok) (log g ++ [e]) (imap g) (ninst g),
             Loc (prog l) Idle (setslot s (held l) (slots l)) None,
             [E K_UNLOCK O_MTX 0] ++ fault_evs F_UAF ok ++ [E K_RET 0 r])
     | None =>
-      Some (Glob (omap g) (tmap g) None (heap g) (calls g) (throws g) (faulted g) (log g ++ [e]),
+      Some (Glob (omap g) (tmap g) None (heap g) (calls g) (throws g) (faulted g) (log g ++ [e]) (imap g) (ninst g),
             Loc (prog l) Idle (slots l) (held l), [E K_UNLOCK O_MTX 0; E K_RET 0 r])
     end
   | XUnlock o =>
-    Some (Glob (omap g) (tmap g) None (heap g) (calls g) (throws g) (faulted g) (log g ++ [Entry t (OP o) null_ptr None]),
+    Some (Glob (omap g) (tmap g) None (heap g) (calls g) (throws g) (faulted g)
+               (log g ++ [Entry t (OP o) null_ptr None]) (imap g) (ninst g),
           Loc (prog l) Idle (slots l) (held l), [E K_UNLOCK O_MTX 0; E K_CATCH 0 0])
   end.
 
@@ -397,7 +453,7 @@ Definition tstep := tstep_gen false.
 Definition fin (l : loc) : bool := match at_ l, prog l with Idle, [] => true | _, _ => false end.
 
 Definition init (thr_at : list Z) (progs : list (list op)) : sys glob loc :=
-  Sys (Glob [] [] None [] 0 thr_at false []) (map (fun p => Loc p Idle (None, None) None) progs).
+  Sys (Glob [] [] None [] 0 thr_at false [] [] 0) (map (fun p => Loc p Idle (None, None) None) progs).
 
 (* ---------- entry point of the correspondence check ---------- *)
 Fixpoint decode_prog (p : list (list Z)) : list op :=
